@@ -209,6 +209,7 @@ pub fn grammar_module(src: &GrammarSrc, with_variants: bool, with_walker: bool) 
         }
     }
     let has_skip = g.whitespace.is_some() || g.comment.is_some();
+    let raw = Grammar::raw(&src.text).ok();
     let user_rules: Vec<&refpeg::RuleDef> = g.rules.iter().filter(|r| !r.name.starts_with("w__")).collect();
     for r in &user_rules {
         let n = &r.name;
@@ -249,7 +250,18 @@ pub fn grammar_module(src: &GrammarSrc, with_variants: bool, with_walker: bool) 
             for (label, _) in VARIANTS {
                 let _ = writeln!(o, "    fn tv_{label}_{n}<'i>(inp: &harness::Inputs<'i>, out: &mut harness::CaseObs) {{");
                 let _ = writeln!(o, "        type N<'i> = tv_{label}::pairs::{}<'i, 1>;", rid(n));
-                let _ = writeln!(o, "        harness::run_variant::<tv_{label}::Rule, N<'i>>(inp, out);");
+                if label == "noopt" && r.kind != Kind::Atomic {
+                    // getters of the raw-AST build (C16 under pest_optimizer = false)
+                    let mut calls = String::new();
+                    if let Some(rr) = raw.as_ref().and_then(|g| g.rule(n)) {
+                        for (name, _) in refpeg::shape::getter_shapes(rr) {
+                            let _ = write!(calls, "o.getters.push(harness::getter_obs::<tv_{label}::Rule, _>({}, n.{}())); ", lit(&name), rid(&name));
+                        }
+                    }
+                    let _ = writeln!(o, "        harness::run_variant_with::<tv_{label}::Rule, N<'i>>(inp, out, |n: &N<'i>, o: &mut harness::NodeObs| {{ {calls} }});");
+                } else {
+                    let _ = writeln!(o, "        harness::run_variant::<tv_{label}::Rule, N<'i>>(inp, out);");
+                }
                 let _ = writeln!(o, "    }}");
             }
         }
